@@ -216,6 +216,10 @@ def run(ctx):
                # cycles through three mutators reported by a seeded-change agent (known findings)
                ('corpus', '(set-logic ALL)\n(declare-const x Int)\n(declare-const y Int)\n(declare-const z Int)\n(assert (= (+ y z) x))\n(check-sat)\n'),
                ('corpus', '(set-logic ALL)\n(declare-const a Int)\n(declare-const b Int)\n(assert (= (+ a b) (+ a b)))\n(check-sat)\n'),
+               # a reduced-bit-width definition in terms of a definition that refers to itself (F74): merging must not go on for ever,
+               # nor propose the input itself
+               ('corpus', '(set-logic ALL)\n(define-fun a () (_ BitVec 4) ((_ zero_extend 0) a))\n(define-fun b () (_ BitVec 4) ((_ zero_extend 0) a))\n(assert (= b #x0))\n(check-sat)\n'),
+               ('corpus', '(set-logic ALL)\n(define-fun a () (_ BitVec 4) ((_ zero_extend 2) a))\n(define-fun b () (_ BitVec 4) ((_ zero_extend 1) a))\n(assert (= b #x0))\n(check-sat)\n'),
                # NaN as a literal: its exponent field is no default constant of its own sort (known finding cycle:Constants)
                ('corpus', '(set-logic ALL)\n(declare-const f (_ FloatingPoint 5 11))\n(assert (fp.isNaN (fp (_ bv0 1) (_ bv31 5) (_ bv1 10))))\n(check-sat)\n'),
                # a definition that is not recursive itself but refers to one that is (the recursion check must not loop on it);
